@@ -116,6 +116,10 @@ def elementary(rng, kinds=None):
             [1., 2., 1., 0., 0., 1., 0., -2., 0., -6.],
             [1., 1., 0., 0., 0., 0., 0., 0., -4., 0.],    # paraboloid
             [1., -1., 1., 0., 0., 0., 0., 0., 0., -4.],   # hyperboloid
+            [-1., -1., -1., 0., 0., 0., 0., 0., 0., 36.],  # sphere written with the opposite sense
+            [-0.25, 1., 1., 0., 0., 0., 0., 0., 0., 0.],   # cone about x, first coefficient negative
+            [0., 0., -2., 0., 0., 0., 1., 1., 0., 4.],     # first non-zero coefficient negative
+            [-2., -1., -1., 0., -1., 0., -1., 0., 0., 8.],
         ])
         return 'gq', base
     if k in ('tx', 'ty', 'tz'):
